@@ -15,7 +15,8 @@ for every user / object / action / domain of the case's universe:
   T5  get_users_for_role / get_roles_for_user (and the _in_domain variants) are inverse views of the g rules (of d),
       each name once                                                                   (C15_roles_users_inverse);
   T6  get_implicit_users_for_resource[_by_domain] = the rules on the resource (of d) with a role subject replaced by
-      each of the role's direct users, and every reported permission is granted by enforce;
+      each of the role's direct users, and every reported permission is granted by enforce
+                                                                                       (C15_resource_view_exact_and_sound);
   no query raises or fails to terminate on a well-formed policy.
 Every case is also run on the extracted model (oracle "Mgmt") and compared observation by observation."""
 import itertools
